@@ -195,12 +195,12 @@ fn one_pass(
     Ok(())
 }
 
-fn run_case(ch: &Chooser, env: &Env, which: usize, st: &stream::Stream, cfg: &WriteCfg, taken: &[String]) -> Outcome {
+fn run_case(ch: &Chooser, env: &Env, stream_name: &str, st: &stream::Stream, cfg: &WriteCfg, taken: &[String]) -> Outcome {
     let names: Vec<&str> = env.refs.iter().map(|r| r.name).collect();
     let describe = || {
         format!(
             "stream={} deviations=[{}] {} ; records: [{}] ; rendered: {}",
-            BASE_STREAMS[which],
+            stream_name,
             taken.join(","),
             cfg.describe(),
             st.recs.iter().map(|r| r.literal()).collect::<Vec<_>>().join(", "),
@@ -278,7 +278,7 @@ fn body_default(
     }
     let st = stream::finalise(protos, &env.refs);
     let cfg = WriteCfg { records_per_slice: layout, preserve_names: preserve, pos_delta: delta, ..Default::default() };
-    run_case(ch, env, which, &st, &cfg, &taken)
+    run_case(ch, env, BASE_STREAMS[which], &st, &cfg, &taken)
 }
 
 /// Harness B: one encoder varied at a time against the default map, plus the all-same maps.
@@ -301,7 +301,102 @@ fn body_encoders(
     }
     let st = stream::finalise(protos, &env.refs);
     let cfg = WriteCfg { records_per_slice: layout, preserve_names: preserve, pos_delta: true, target, enc };
-    run_case(ch, env, which, &st, &cfg, &taken)
+    run_case(ch, env, BASE_STREAMS[which], &st, &cfg, &taken)
+}
+
+/// Harness C: blocks whose sizes straddle the ITF8 width boundaries (2/3 bytes at 16384, 3 bytes up to
+/// 32767/32768): `total` quality scores in reads of 50 bases on sq2, QS (and for unplaced reads BA)
+/// stored raw, so that compressed size = raw size = `total` enters the block size, the container
+/// length and the landmarks.
+fn body_big_blocks(ch: &Chooser, env: &Env, totals: &[usize]) -> Outcome {
+    let total = *ch.pick_free("total_quality_scores", totals);
+    let unplaced = *ch.pick_free("placement", &[false, true]);
+    let r = &env.refs[2];
+    let mut recs = Vec::new();
+    let mut left = total;
+    let mut i = 0usize;
+    let mut x: u32 = 12345;
+    while left > 0 {
+        let len = left.min(50);
+        left -= len;
+        let pos = 1 + (i * 150) / (total / 50 + 1); // non-decreasing, <= 150
+        let qual: Vec<u8> = (0..len)
+            .map(|_| {
+                x = x.wrapping_mul(1103515245).wrapping_add(12345);
+                ((x >> 16) % 41) as u8
+            })
+            .collect();
+        let seq: Vec<u8> = r.seq[pos - 1..pos - 1 + len].iter().map(|b| b.to_ascii_uppercase()).collect();
+        recs.push(if unplaced {
+            rec::Rec {
+                name: Some(format!("b{i}").into_bytes()),
+                flags: rec::UNMAPPED,
+                rid: None,
+                pos: None,
+                mapq: Some(0),
+                cigar: Vec::new(),
+                mrid: None,
+                mpos: None,
+                tlen: 0,
+                seq,
+                qual,
+                tags: Vec::new(),
+            }
+        } else {
+            rec::Rec {
+                name: Some(format!("b{i}").into_bytes()),
+                flags: 0,
+                rid: Some(2),
+                pos: Some(pos),
+                mapq: Some(30),
+                cigar: vec![(b'M', len)],
+                mrid: None,
+                mpos: None,
+                tlen: 0,
+                seq,
+                qual,
+                tags: Vec::new(),
+            }
+        });
+        i += 1;
+    }
+    let n = recs.len();
+    let st = stream::Stream {
+        recs,
+        protos: Vec::new(),
+        classes: vec![if unplaced { "unplaced/single".to_string() } else { "mapped/single".to_string() }; n],
+    };
+    // QS raw; for unplaced reads the bases (BA) are stored too: all-same raw map
+    let cfg = WriteCfg {
+        target: if unplaced { Target::AllSame } else { Target::Series(27) },
+        enc: Enc::None,
+        ..Default::default()
+    };
+    let taken = vec![format!("total={total}"), format!("reads={n}")];
+    let names: Vec<&str> = env.refs.iter().map(|r| r.name).collect();
+    let _ = names;
+    run_case_brief(ch, env, &st, &cfg, &taken)
+}
+
+/// `run_case` with a short description (hundreds of records are not spelled out).
+fn run_case_brief(ch: &Chooser, env: &Env, st: &stream::Stream, cfg: &WriteCfg, taken: &[String]) -> Outcome {
+    let describe = || {
+        format!(
+            "stream=big-blocks [{}] {} ; records: reads of 50 bases (last one shorter) named b0.. on sq2 (or unplaced), CIGAR <len>M, bases = reference, LCG qualities",
+            taken.join(","),
+            cfg.describe()
+        )
+    };
+    ch.desc(describe);
+    let a = one_pass(ch, env, st, cfg, true);
+    let b = one_pass(ch, env, st, cfg, false);
+    match a.and(b) {
+        Ok(()) => Ok(()),
+        Err((f, e, o)) => {
+            ch.obs(&f);
+            Err(Violation::new(f, describe(), e, o))
+        }
+    }
 }
 
 fn assignments(nx16: &[u8], aac: &[u8], gz: &[u32]) -> Vec<(Target, Enc)> {
@@ -332,7 +427,8 @@ fn main() {
              completely, every record field (CIGAR shape, position, reference, placement, bases, qualities, name, strand, flags, MAPQ, \
              tag set, read group) deviates from its base value under the bound k; harness encoders_*: every (target in core / each of \
              the 28 data series / tag blocks / all-same) x encoder of the alphabet, one at a time against the default map, x stream x \
-             layout x preserve_read_names; each case is written twice; distinct = distinct (rendered records, container count, block \
+             layout x preserve_read_names; harness big_blocks: quality-score totals straddling the ITF8 width boundaries (16383/16384, 32767/32768) \
+             stored raw, mapped and unplaced; each case is written twice; distinct = distinct (rendered records, container count, block \
              count) logs; transitions = blocks walked",
         );
         ctx.assume("gcram::walk (own ITF8/LTF8, crc32fast, md-5, miniz_oxide inflate, bzip2 and lzma-rust2 crates) is correct; calibrated on default-writer files of ordinary reads");
@@ -357,6 +453,9 @@ fn main() {
                     body_default(ch, &env, DevSet::ALL, &[0], &[None], &[(true, true)])
                 });
             }
+            if want("big_blocks") {
+                ctx.harness(Config::new("big_blocks", 0), |ch| body_big_blocks(ch, &env, &[16383, 16384, 20000, 32767, 32768]));
+            }
             if want("encoders_k0") {
                 let asg = assignments(&q_nx16, &q_aac, &[1, 9]);
                 ctx.harness(Config::new("encoders_k0", 0), |ch| body_encoders(ch, &env, &asg, &[5], &[None], DevSet::NONE));
@@ -369,6 +468,10 @@ fn main() {
                 ctx.harness(Config::new("default_map_k2_pairs", 2), |ch| {
                     body_default(ch, &env, DevSet::ALL, &[2], &[None], &[(true, true)])
                 });
+            }
+            if want("big_blocks") {
+                let totals: Vec<usize> = vec![127, 128, 16383, 16384, 16385, 20000, 32767, 32768, 32769, 40000];
+                ctx.harness(Config::new("big_blocks", 0), |ch| body_big_blocks(ch, &env, &totals));
             }
             if want("default_map_k1_all_options") {
                 ctx.harness(Config::new("default_map_k1_all_options", 1), |ch| {
